@@ -84,7 +84,7 @@ def run_locate(req, idx, ncells):
         if req["rargs"] == "none":
             ra.update(vmin=b, vmax=a + b)
         ra["least_squares_params"] = {"max_nfev": 12}
-    width = 0.6 if req["width"] == "given" else None
+    width = {"given": 0.6, "zero": 0.0, "none": None}[req["width"]]    # a width of exactly zero (sharp) is a valid width
     try:
         with warnings.catch_warnings():
             warnings.simplefilter("ignore")
